@@ -6,6 +6,7 @@ wait; `tickEnd` runs after the wait with those sampled values (the reading "at t
 turn" = the instant the turn begins, DESIGN.md 6.8).
 -/
 import Wheatley.Lemmas.Outs
+import Wheatley.Lemmas.Cli
 namespace Wheatley.C08
 
 /-- **Whose bell**: the ownership test is exactly "unassigned and no name configured, or assigned to
@@ -147,5 +148,12 @@ example :
     let t : Tower := { bellState := [true, true, true, true], assigned := [(3, 11)], userNames := [(11, "Alice")] }
     t.isAssignedTo 3 none = false ∧ t.isAssignedTo 2 none = true ∧ t.isAssignedTo 3 (some "Alice") = true := by
   decide
+
+/-! ### The command line (`Model/Cli.lean`: `console_main`) -/
+
+/-- The name whose bells Wheatley rings is the last `--name` given; without one, none (the unassigned bells). -/
+theorem cli_name (c : Parse.Chars) (os : List Cli.Opt) (u : Option (List Char × List Char)) (cfg : Cli.Cfg)
+    (h : Cli.consoleMain c os u = .built cfg) : cfg.name = (Cli.namesGiven os).getLast? :=
+  (Cli.main_built c os u cfg h).2.2.2.2.2.2.2.2.1
 
 end Wheatley.C08
